@@ -238,8 +238,13 @@ func c07Worker(ctx *core.Ctx) *core.Result {
 	// PAN-OS: everything outside the targeted vsys
 	px := &panx{ctx: ctx, res: x.res, sc: x.sc, prop: "C07", frame: true, seen: map[string]struct{}{}}
 	px.run([]*panSpace{panVsysSpace(), panFrameSpace()})
+	if c07Extra != nil {
+		c07Extra(ctx, x.res)
+	}
 	return x.res
 }
+
+var c07Extra func(ctx *core.Ctx, res *core.Result)
 
 // panFrameSpace: two vsys with rules and objects; the target addresses only
 // vsys1; vsys2 uses equal object names.
